@@ -1,4 +1,4 @@
-import LokyModel.Lemmas.TrackerTree
+import LokyModel.Lemmas.TrackerTreeThreads
 /-!
 # C12 — one resource tracker serves the whole process tree and is self-healing  *(partial)*
 
@@ -352,5 +352,107 @@ example : ∃ s, run init [.mkfile 0, .op 0 .register 0, .sigTracker 0 .kill, .o
       .sigTracker 1 .kill, .op 0 .unregister 0] = some s
     ∧ (s.procs 0).trk = some 2 ∧ (s.trks 2).alive = true ∧ (s.procs 0).warned = 2 ∧ s.trkKills = 2 := by
   exact ⟨_, rfl, rfl, rfl, rfl, rfl⟩
+
+/-! ### threads of a member: launch from any thread, concurrent first use, use at import time
+
+`step` has no thread argument (see the model: `ensure_running` does not look at the calling thread and
+holds `self._lock` from the probe to the assignment of `_fd/_pid`): the histories below carry the thread
+of every action only to say so.  They quantify over **every** list of actions of the threads of one
+member, i.e. over every interleaving of a concurrent group of operations. -/
+
+/-- **One (re)launch, whoever asks.**  Whatever the threads of member `p` do, in any number and in any
+    interleaving — tracked operations, creation of primitives, finalizers — starting from any reachable
+    state: at most one new tracker incarnation appears; none if `p`'s tracker is alive (then `p` keeps
+    it and no warning is issued); every "relaunching" warning is matched by a launch and a first use
+    (`p` had no tracker) issues none; a launch makes the new incarnation `p`'s tracker, started with
+    INT/TERM blocked whichever thread launched it; and no tracker that was alive has its pipe closed or
+    changes phase (so none can reach its end-of-life sweep because of what these threads did). -/
+theorem one_launch_per_death {h : List Ev} {s s' : State} (hr : Reach h s) (p : Pid) (acts : List TAct)
+    (hm : ∀ a ∈ acts, memberAct p a.ev = true) (hrun : runT s acts = some s') :
+    s'.nTrk ≤ s.nTrk + 1
+    ∧ (s'.procs p).warned + s.nTrk ≤ (s.procs p).warned + s'.nTrk
+    ∧ ((s.procs p).trk = none → (s'.procs p).warned = (s.procs p).warned)
+    ∧ (aliveFor s p → s'.nTrk = s.nTrk ∧ (s'.procs p).trk = (s.procs p).trk
+          ∧ (s'.procs p).warned = (s.procs p).warned)
+    ∧ (s'.nTrk = s.nTrk + 1 → (s'.procs p).trk = some s.nTrk ∧ (s'.trks s.nTrk).ph = .starting0)
+    ∧ (∀ t, (s.trks t).alive = true → (s'.trks t).alive = true ∧ (s'.trks t).writers = (s.trks t).writers) := by
+  have h1 := reach_inv1 hr
+  have hm' : ∀ e ∈ acts.map (·.ev), memberAct p e = true := by
+    intro e he
+    simp only [List.mem_map] at he
+    obtain ⟨a, ha, rfl⟩ := he
+    exact hm a ha
+  have eff : MemberEffect p s s' := member_run h1 hm' hrun
+  have hkeep : ∀ t, (s.trks t).alive = true → (s'.trks t).alive = true ∧ (s'.trks t).writers = (s.trks t).writers :=
+    fun t ha => ⟨eff.keep_alive t ha, (eff.keep t ha).2⟩
+  rcases eff.cases with ⟨hn, ht, hw⟩ | ⟨hna, hn, ht, hph, hw⟩
+  · exact ⟨by omega, by omega, fun _ => hw, fun _ => ⟨hn, ht, hw⟩, fun h => by omega, hkeep⟩
+  · refine ⟨by omega, ?_, ?_, fun ha => absurd ha hna, fun _ => ⟨ht, hph⟩, hkeep⟩
+    · rw [hw, hn]; split <;> omega
+    · intro hnone; rw [hw]; simp [hnone]
+
+/-- a dead tracker, three threads using it at once, in two different interleavings: one relaunch, one warning -/
+example : ∃ s0 s1 s2, run init [.mkfile 0, .mkfile 0, .op 0 .register 0, .sigTracker 0 .kill] = some s0
+    ∧ runT s0 [⟨1, .op 0 .register 0⟩, ⟨2, .op 0 .register 1⟩, ⟨3, .semOpen 0 0⟩, ⟨3, .semRegister 0 0⟩] = some s1
+    ∧ runT s0 [⟨3, .semOpen 0 0⟩, ⟨2, .op 0 .register 1⟩, ⟨3, .semRegister 0 0⟩, ⟨1, .op 0 .register 0⟩] = some s2
+    ∧ s1.nTrk = 2 ∧ s2.nTrk = 2 ∧ (s1.procs 0).warned = 1 ∧ (s2.procs 0).warned = 1
+    ∧ (s1.trks 1).reg 0 = 1 ∧ (s2.trks 1).reg 1 = 1 ∧ (s1.trks 1).reg 2 = 1 := by
+  exact ⟨_, _, _, rfl, rfl, rfl, rfl, rfl, rfl, rfl, rfl, rfl, rfl⟩
+
+/-- **INT and TERM during start-up are harmless, whoever launched.**  From the moment a tracker exists
+    (in particular right after its launch, when `one_launch_per_death` puts it in `starting0` for a launch by
+    any thread), any sequence of its own start-up steps and of SIGINT / SIGTERM deliveries leaves it alive. -/
+theorem startup_signals_harmless {s s' : State} {t : Tid} (ha : (s.trks t).alive = true) (es : List Ev)
+    (hes : ∀ e ∈ es, e = .boot t ∨ e = .sigTracker t .int ∨ e = .sigTracker t .term)
+    (hrun : run s es = some s') : (s'.trks t).alive = true := by
+  induction es generalizing s with
+  | nil => simp [run] at hrun; subst hrun; exact ha
+  | cons e es ih =>
+    simp only [run] at hrun
+    split at hrun
+    · rename_i s1 hs1
+      apply ih _ (fun e' he' => hes e' (by simp [he'])) hrun
+      rcases hes e (by simp) with rfl | rfl | rfl
+      · simp only [step] at hs1
+        split at hs1
+        · rename_i tr hb
+          injection hs1 with hs1; subst hs1
+          simpa [upd] using (boot_spec _ _ hb).2.2.2
+        · simp at hs1
+      · rw [(ignores_int_term (by simp) hs1).1]; exact ha
+      · rw [(ignores_int_term (by simp) hs1).1]; exact ha
+    · simp at hrun
+
+/-- a relaunch by a non-main thread, TERM and INT hitting the new tracker before and between its start-up steps -/
+example : ∃ s0 s1 s2, run init [.mkfile 0, .op 0 .register 0, .sigTracker 0 .kill] = some s0
+    ∧ runT s0 [⟨1, .op 0 .register 0⟩] = some s1 ∧ (s1.trks 1).ph = .starting0
+    ∧ run s1 [.sigTracker 1 .term, .boot 1, .sigTracker 1 .int, .boot 1, .sigTracker 1 .term] = some s2
+    ∧ (s2.trks 1).ph = .running ∧ (s2.trks 1).reg 0 = 1 := by
+  exact ⟨_, _, _, rfl, rfl, rfl, rfl, rfl, rfl⟩
+
+/-- **Use of the tracker at import time.**  Whatever a freshly spawned child does on its own right after
+    `spawn` — in particular while its main module is re-imported (`loky_init_main`), before its target runs:
+    tracked operations, creation of Locks, by any of its threads — goes to its parent's tracker: no new
+    incarnation, no warning, and no live tracker loses a writer.  (`prepare` installs the parent's
+    `_pid/_fd` *before* `_fixup_main_from_name/_path`: in the model the child holds the tracker from the
+    spawn step on.) -/
+theorem import_time_use_goes_to_parents_tracker {h : List Ev} {s s1 s2 : State} (hr : Reach h s) {p c : Pid}
+    {im : Bool} (hs : step s (.spawn p c im) = some s1) (acts : List TAct)
+    (hm : ∀ a ∈ acts, memberAct c a.ev = true) (hrun : runT s1 acts = some s2) :
+    s2.nTrk = s1.nTrk ∧ (s2.procs c).trk = (s1.procs p).trk ∧ (s2.procs c).warned = (s1.procs c).warned
+    ∧ (∀ t, (s1.trks t).alive = true → (s2.trks t).alive = true ∧ (s2.trks t).writers = (s1.trks t).writers) := by
+  obtain ⟨t, hc, hp, hal, _, _, _⟩ := spawn_inherits hr hs
+  have hr1 : Reach (.spawn p c im :: h) s1 := Reach.step hr hs
+  have key := one_launch_per_death hr1 c acts hm hrun
+  have := key.2.2.2.1 ⟨t, hc, hal⟩
+  exact ⟨this.1, by rw [this.2.1, hc, hp], this.2.2, key.2.2.2.2.2⟩
+
+/-- the import-time registration of a file and of a Lock by a depth-2 `loky_init_main` child, then its SIGKILL:
+    still one incarnation, the root's; nothing is cleaned up -/
+example : ∃ s, run init [.mkfile 0, .op 0 .register 0, .spawn 0 1 true, .spawn 1 2 true, .op 2 .register 0,
+      .semOpen 2 0, .semRegister 2 0, .exit 2 .crash, .boot 0, .boot 0] = some s
+    ∧ s.nTrk = 1 ∧ (s.trks 0).reg 0 = 2 ∧ (s.trks 0).ph = .running ∧ s.ns 0 = true ∧ s.ns 1 = true
+    ∧ step s (.eof 0) = none := by
+  exact ⟨_, rfl, rfl, rfl, rfl, rfl, rfl, rfl⟩
 
 end LokyModel.TrackerTree
